@@ -40,7 +40,8 @@ func init() {
 			"root with crds/, subchart without/with condition on/off by defaults/by user, alias, sub-subchart, parent off, leaf off, root+sub both constrained) x 8 contents x every route " +
 			"(user float64/int64/json.Number/1.0, -f and --set through cli/values.MergeValues, own defaults, parent's section, root's section, overriding pairs, key-wise split, merged object). " +
 			"Part C: .global.g constrained in a subchart x global arriving from user/root defaults/own defaults. Part E: part B's schemas x 11 placements with crds/ in the root, a subchart, a sibling subchart or both while the violated schema is in the root, " +
-			"a subchart (plain/conditional/aliased/disabled), a sub-subchart or both x 9 contents x {U, D} x {install, dry-run, template, upgrade}. Part D: part B's schemas x {root, sub, root with crds/} x 9 contents x {U, D} on the Secrets and " +
+			"a subchart (plain/conditional/aliased/disabled), a sub-subchart or both x 9 contents x {U, D} x {install, dry-run, template, upgrade}. Part F: two charts with the SAME name and version (declared or by alias) at different tree positions (cousins a/db+b/db, parent/child db+db/db, uncle/nephew, root/child) " +
+			"carrying DIFFERENT schemas: ordered schema pairs x content pairs x {U, D} x {install, dry-run, template, upgrade, lint}. Part D: part B's schemas x {root, sub, root with crds/} x 9 contents x {U, D} on the Secrets and " +
 			"ConfigMaps storage drivers (cluster-touching entries only). Every (schema, tree) pair x {install, install --dry-run, template, upgrade after a " +
 			"valid install, upgrade reusing stored values, lint} x skip-schema-validation off/on. distinct = (schema text, chart tree, layers, entry, skip) with a schema that constrains something",
 		Run:    run,
@@ -62,6 +63,8 @@ func init() {
 			"reject-route:U-int64", "reject-route:U-jnum", "reject-route:U-file", "reject-route:U-set", "reject-global",
 			"reject@install:crds-root/schema-sub", "reject@install:crds-root/schema-leaf", "reject@install:crds-sub/schema-root", "reject@install:crds-sibling/schema-sub",
 			"reject@install:crds-root+sub/schema-root+sub", "crds-installed-when-valid",
+			"reject:twins", "twins-discriminating-reject@install", "twins-discriminating-accept@install", "twins-discriminating-reject@upgrade", "twins-discriminating-accept@upgrade",
+			"twins-discriminating-reject@template", "twins-discriminating-accept@template", "twins-discriminating-reject@lint", "twins-discriminating-accept@lint",
 		},
 	})
 }
@@ -374,7 +377,7 @@ func (e *env) runCase(cs Case) (o outcome) {
 	}
 
 	src := "-"
-	if len(o.Verdicts) > 0 {
+	if len(o.Verdicts) > 0 && cs.Part != "F" { // (part F has no layer structure: each twin gets one content)
 		src = "other"
 		for _, v := range o.Verdicts {
 			if v.Depth == len(chainOf(cs.Chart, cs.Placement))-1 {
@@ -692,33 +695,39 @@ func run(c *core.Ctx) {
 					cs := Case{Part: u.Part, Placement: u.P.Name, Class: u.P.Class, Body: u.B.ID, Route: vt.Route, Layers: vt.L,
 						Chart: spec, User: encodeTyped(user), CLI: vt.L.CLI, Entry: en, Skip: skip, Driver: u.Driver}
 					o := e.judge(cs)
-					c.Eval(1)
-					c.Count("runs:"+en, 1)
-					c.Count("runs:part"+u.Part, 1)
-					if nontrivial {
-						c.Distinct(u.B.Text + "|" + u.P.Name + "|" + vt.Route + "|" + show(layersCanon(vt.L)) + "|" + cs.entryName() + "|" + u.Driver)
-					}
-					class := classify(c, cs, o)
-					c.Outcome(class)
-					if !seenOutcome[class+"@"+en] {
-						seenOutcome[class+"@"+en] = true
-						c.Sample(map[string]any{"case": cs.entryName(), "placement": cs.Placement, "schema": u.B.Text, "route": vt.Route, "chart": spec.ID(),
-							"user": show(o.User), "reference": o.Verdicts, "error": oneLine(o.Err), "outcome": class})
-					}
-					for _, ob := range o.Observations {
-						c.Count("observation:"+ob, 1)
-					}
-					for _, f := range o.Findings {
-						if f.Kind == "unexpected-error" {
-							c.NotExhaustive("case failed outside the schema step (%s, %s, %s): %s", cs.entryName(), cs.Placement, cs.Route, f.Text)
-							continue
-						}
-						k := keyOf(cs, f)
-						c.Violate(prop, k, what(cs, o, f), replayData{Key: k, Case: cs})
-					}
+					record(c, cs, o, nontrivial, u.B.Text+"|"+u.P.Name+"|"+vt.Route+"|"+show(layersCanon(vt.L))+"|"+cs.entryName()+"|"+u.Driver, u.B.Text, seenOutcome)
 				}
 			}
 		}
+	}
+	runTwins(c, e, seenOutcome)
+}
+
+// record books one executed case: counters, distinct set, outcome class, sample, violations.
+func record(c *core.Ctx, cs Case, o outcome, nontrivial bool, distinct, schema string, seenOutcome map[string]bool) {
+	c.Eval(1)
+	c.Count("runs:"+cs.Entry, 1)
+	c.Count("runs:part"+cs.Part, 1)
+	if nontrivial {
+		c.Distinct(distinct)
+	}
+	class := classify(c, cs, o)
+	c.Outcome(class)
+	if !seenOutcome[class+"@"+cs.Entry] {
+		seenOutcome[class+"@"+cs.Entry] = true
+		c.Sample(map[string]any{"case": cs.entryName(), "placement": cs.Placement, "schema": schema, "route": cs.Route, "chart": cs.Chart.ID(),
+			"user": show(o.User), "reference": o.Verdicts, "error": oneLine(o.Err), "outcome": class})
+	}
+	for _, ob := range o.Observations {
+		c.Count("observation:"+ob, 1)
+	}
+	for _, f := range o.Findings {
+		if f.Kind == "unexpected-error" {
+			c.NotExhaustive("case failed outside the schema step (%s, %s, %s): %s", cs.entryName(), cs.Placement, cs.Route, f.Text)
+			continue
+		}
+		k := keyOf(cs, f)
+		c.Violate(prop, k, what(cs, o, f), replayData{Key: k, Case: cs})
 	}
 }
 
